@@ -38,6 +38,10 @@ CLAIMED = {
          "Deductive proof for every aggregation state, store content and clock history: an entry is removed only if late-with-stored-VAA, submitted and an hour old, retry budget exhausted, or never observed after five minutes; an own unsubmitted message is never discarded before its budget unless a quorum VAA is stored; a retry happens only >= 5 min after the previous one, re-broadcasts the node's own observation and bumps the counter by one; when due, retry / expiry / drop does happen; other entries are untouched.",
          "Trusted: govc, SMT solvers; assumed ghost-store contracts of db.GetSignedVAABytes (verified separately under C12 where claimed); time.Since/Now on a ghost monotone clock, Duration.Hours/Minutes as exact reals; ticks are assumed to keep arriving (the bounded-lifetime conclusion follows from the proved per-tick relation: retryCount strictly increases towards the budget); the goroutine sending the miss notification is not executed.",
          "DESIGN.md §3-C14"),
+ "C13": ("zero-annotation no-panic obligations (nil deref, index, slice bounds, nil-map write, explicit panic, make size, callee preconditions) on the seven handlers and Run under the processor's representation invariant, which every handler is proved to re-establish; SMT",
+         "Deductive proof that from every state satisfying the representation invariant Inv(p) and for every chain message, observation, inbound VAA, injected VAA, guardian-set update and tick, no handler reaches a panic site and Inv(p) holds again afterwards; Run's loop invariant turns this into 'for every sequence of events'. Two genuine defects found by failing obligations and history replays were repaired (undecodable stored VAA; cleanup before the first guardian set).",
+         "Trusted: govc, SMT solvers. Environment assumptions (listed in evidence): messages on channels are non-nil; guardian sets arriving on setC have at most 255 keys; a working guardian signer and proto.Marshal (the code panics by design if they fail); LastHeartbeat returns non-nil heartbeats (assumed contract); ghost-store contracts of db.Store/Get; goroutines started by the handlers are not executed; runtime exhaustion (memory growth by a valid guardian) is out of scope.",
+         "DESIGN.md §3-C13"),
 }
 
 NA = {
